@@ -361,12 +361,17 @@ def run(ctx):
             ctx.sample({st: cases[len(cases) // 2][:300]})
     # vacuity of the stages
     need = {'getters': ('err_partial', 20), 'agent': ('keys', 3), 'socks': ('forwarded', 10), 'sftp_framing': ('ended', 5),
-            'copy': ('capped', 2)}
+            'copy': ('multi_block', 3)}
     for st, (key, k) in need.items():
         if st in stage_res and stage_res[st]['stats'].get(key, 0) < k:
             ctx.broke('vacuity:%s.%s' % (st, key), 'only %d cases' % stage_res[st]['stats'].get(key, 0))
-    # documented-exception oracle over every stage
+    if 'copy' in stage_res and stage_res['copy']['stats'].get('same_file_refused', 0) < 5 and \
+            not stage_res['copy']['stats'].get('capped'):
+        ctx.broke('vacuity:copy.same_file_refused', 'only %d cases' % stage_res['copy']['stats'].get('same_file_refused', 0))
+    # documented-exception oracle over every stage (reported after the session findings: a blocked event loop
+    # should not be hidden behind them in the first lines of the output)
     seen = set()
+    deferred = []
     for st, r in stage_res.items():
         for k, v in (r.get('stats') or {}).items():
             if st.startswith('fuzz_'):
@@ -377,9 +382,9 @@ def run(ctx):
             if sig in seen:
                 continue
             seen.add(sig)
-            ctx.failing_input('%s: %s on input %s: %s (documented: %s)' % (st, func, data[:120], exc, documented(st, func)),
-                              {'kind': 'parser', 'stage': st, 'func': func, 'input': data, 'exc': exc.split(':')[0],
-                               'seed': ctx.seed, 'n': next((j['n'] for j in stage_jobs if j['stage'] == st), 0), 'tier': ctx.tier})
+            deferred.append(('%s: %s on input %s: %s (documented: %s)' % (st, func, data[:120], exc, documented(st, func)),
+                             {'kind': 'parser', 'stage': st, 'func': func, 'input': data, 'exc': exc.split(':')[0],
+                              'seed': ctx.seed, 'n': next((j['n'] for j in stage_jobs if j['stage'] == st), 0), 'tier': ctx.tier}))
     # copy-data: work must be bounded by the source (the cap stands in for the disk filling up)
     if 'copy' in stage_res:
         flagged = set()
@@ -425,6 +430,7 @@ def run(ctx):
 
     # ---- sessions: the direct oracle -----------------------------------------------------------------
     phases_seen, outcomes = {}, {'continues': 0, 'closed': 0}
+    names_seen = {'server': set(), 'client': set()}
     owner_classes = {}
     max_ratio = {'out': 0, 'turns': 0}
     nviol = 0
@@ -459,6 +465,7 @@ def run(ctx):
                 label = lab[min(first + i, len(lab) - 1)] if job.get('payloads') else lab[0]
                 ctx.note_case((job['role'], job['phase'], (job.get('payloads') or job.get('raw'))[min(first + i, len(job.get('payloads') or job.get('raw')) - 1)]),
                               nontrivial=True)
+                names_seen[job['role']].add(label.split(':')[0])
                 outcomes['closed' if st['closed'] else 'continues'] += 1
                 ctx.count('%s.%s' % (key, 'closed' if st['closed'] else 'continues'))
                 if st['in']:
@@ -485,9 +492,18 @@ def run(ctx):
         for ph in H.PHASES + ['rawstream']:
             if phases_seen.get('%s.%s' % (role, ph), 0) < (20 if ph != 'rawstream' else 5) and not hung and hang_count == 0:
                 ctx.broke('vacuity:sessions.%s.%s' % (role, ph), 'only %d payloads reached the endpoint' % phases_seen.get('%s.%s' % (role, ph), 0))
+    all_names = {n for n, _, _ in H.wellformed(0, 7)}
+    for role in ('server', 'client'):
+        missing = sorted(all_names - names_seen[role])
+        ctx.cov['oracle']['message_kinds_sent_to_%s' % role] = len(all_names & names_seen[role])
+        if missing and not hung and hang_count == 0:
+            ctx.broke('vacuity:sessions.%s.messages' % role, 'never sent: ' + ', '.join(missing)[:300])
     if outcomes['continues'] < 50 or outcomes['closed'] < 50:
         if not hung and hang_count == 0:
             ctx.broke('vacuity:session-outcomes', repr(outcomes))
+
+    for what, rp in deferred:
+        ctx.failing_input(what, rp)
 
     # ---- python -O: the SOCKS greeting with no methods must not spin ---------------------------------------
     socks_O(ctx)
@@ -528,27 +544,36 @@ def replay_of(job, first, count):
     return rp
 
 
-def judge_alloc(ctx, job, res):
-    """claimed packet_length 2^32-1: how much does the endpoint hold and copy per chunk?"""
+def alloc_verdict(job, res):
+    """claimed packet_length 2^32-1: how much does the endpoint hold and copy per chunk?
+    -> (summary dict or None, violation text or None)"""
     steps = res.get('steps', [])
     if len(steps) < 10:
-        ctx.broke('vacuity:packet-length', 'only %d chunks were accepted' % len(steps))
-        return
+        return None, None
     held = max(s.get('held', 0) for s in steps)
     trans = max(s.get('transient', 0) for s in steps)
     fed = sum(s['in'] for s in steps)
-    ctx.cov['oracle']['packet_length_2^32-1.%s' % job['role']] = {
-        'bytes_fed': fed, 'chunks': len(steps), 'closed': res.get('closed_by_input'),
-        'max_bytes_held': held, 'max_bytes_allocated_for_one_chunk': trans,
-        'first_chunk_alloc': steps[1].get('transient'), 'last_chunk_alloc': steps[-1].get('transient')}
+    summary = {'bytes_fed': fed, 'chunks': len(steps), 'closed': res.get('closed_by_input'),
+               'max_bytes_held': held, 'max_bytes_allocated_for_one_chunk': trans,
+               'first_chunk_alloc': steps[1].get('transient'), 'last_chunk_alloc': steps[-1].get('transient')}
+    what = None
     if not res.get('closed_by_input') and trans > MAX_BUFFER + 16 * 16384:
-        ctx.failing_input(
-            'no upper bound on packet_length: a header claiming 2^32-1 bytes makes the asyncssh %s (before '
-            'authentication) buffer without limit and copy the whole buffer for every chunk: after %d bytes in 16 KiB '
-            'chunks it held %d bytes and allocated %d bytes to handle ONE chunk (first chunk: %d) - work per chunk grows '
-            'with the total, not with the chunk' % (job['role'], fed, held, trans, steps[1].get('transient', 0)),
-            {'kind': 'unbounded_packet_length', 'role': job['role'], 'phase': 'rawstream', 'raw': job['raw'],
-             'measure_alloc': True, 'alarm': 60})
+        what = ('no upper bound on packet_length: a header claiming 2^32-1 bytes makes the asyncssh %s (before '
+                'authentication) buffer without limit and copy the whole buffer for every chunk: after %d bytes in 16 KiB '
+                'chunks it held %d bytes and allocated %d bytes to handle ONE chunk (first chunk: %d) - work per chunk grows '
+                'with the total, not with the chunk' % (job['role'], fed, held, trans, steps[1].get('transient', 0)))
+    return summary, what
+
+
+def judge_alloc(ctx, job, res):
+    summary, what = alloc_verdict(job, res)
+    if summary is None:
+        ctx.broke('vacuity:packet-length', 'only %d chunks were accepted' % len(res.get('steps', [])))
+        return
+    ctx.cov['oracle']['packet_length_2^32-1.%s' % job['role']] = summary
+    if what:
+        ctx.failing_input(what, {'kind': 'unbounded_packet_length', 'role': job['role'], 'phase': 'rawstream',
+                                 'raw': job['raw'], 'measure_alloc': True, 'alarm': 60})
 
 
 SOCKS_O = r'''
@@ -642,10 +667,9 @@ def replay(rp):
             return 1
         if 'res' in rec:
             if kind == 'unbounded_packet_length':
-                c2 = core.Ctx('C10', 'quick', 0)
-                c2.known = []
-                judge_alloc(c2, job, rec['res'])
-                return 1 if c2.failing_found else 0
+                summary, what = alloc_verdict(job, rec['res'])
+                print('replay:', summary, what)
+                return 1 if what else 0
             bad = H.judge(job, rec['res'])
             if bad:
                 print('replay: still fails:', ' / '.join(bad)[:600])
